@@ -16,6 +16,8 @@ CONSTANTS
   AllowReuse = TRUE
   AllowLin3 = FALSE
   AllowDrop = TRUE
+  AllowBnShare = FALSE
+  PlainOps = {"relu", "pool", "flat", "add"}
   AllowFindings = FALSE
   MaxHist = 2
 VIEW ViewNoHist
